@@ -748,28 +748,39 @@ func (e *Evaluator) evalCallExp(
 		case object.STR_OBJ:
 			fun := e.ctx.CustomFunc.Str[funcName]
 			res := fun(receiverObj.String(), nativeArgs...)
-			return object.NativeToObject(res)
+			return e.customFuncResult(node, res)
 		case object.ARR_OBJ:
 			fun := e.ctx.CustomFunc.Arr[funcName]
 			nativeElems := e.objectsToNativeType(receiverObj.(*object.Array).Elements)
 			res := fun(nativeElems, nativeArgs...)
-			return object.NativeToObject(res)
+			return e.customFuncResult(node, res)
 		case object.INT_OBJ:
 			fun := e.ctx.CustomFunc.Int[funcName]
 			res := fun(int(receiverObj.(*object.Int).Value), nativeArgs...)
-			return object.NativeToObject(res)
+			return e.customFuncResult(node, res)
 		case object.FLOAT_OBJ:
 			fun := e.ctx.CustomFunc.Float[funcName]
 			res := fun(receiverObj.(*object.Float).Value, nativeArgs...)
-			return object.NativeToObject(res)
+			return e.customFuncResult(node, res)
 		case object.BOOL_OBJ:
 			fun := e.ctx.CustomFunc.Bool[funcName]
 			res := fun(receiverObj.(*object.Bool).Value, nativeArgs...)
-			return object.NativeToObject(res)
+			return e.customFuncResult(node, res)
 		}
 	}
 
 	return e.newError(node, fail.ErrNoFuncForThisType, node.Function.Value, receiverObj.Type())
+}
+
+// customFuncResult converts the value returned by a custom function
+// the way data is converted; a value that data could not hold is an error
+func (e *Evaluator) customFuncResult(node *ast.CallExp, res any) object.Object {
+	obj := object.NativeToObject(res)
+	if obj == nil {
+		return e.newError(node, fail.ErrUnsupportedType, res)
+	}
+
+	return obj
 }
 
 func (e *Evaluator) objectsToNativeType(args []object.Object) []any {
